@@ -9,6 +9,7 @@ require (
 	github.com/bfenetworks/bfe v0.0.0
 	github.com/miekg/dns v1.1.29
 	github.com/spaolacci/murmur3 v1.1.0
+	github.com/tjfoc/gmsm v1.3.2
 	go.etcd.io/gofail v0.2.0
 	golang.org/x/crypto v0.0.0-20200622213623-75b288015ac9
 	golang.org/x/net v0.0.0-20201021035429-f5854403a974
@@ -40,7 +41,6 @@ require (
 	github.com/prometheus/procfs v0.0.3 // indirect
 	github.com/russross/blackfriday/v2 v2.0.1 // indirect
 	github.com/shurcooL/sanitized_anchor_name v1.0.0 // indirect
-	github.com/tjfoc/gmsm v1.3.2 // indirect
 	github.com/uber/jaeger-client-go v2.22.1+incompatible // indirect
 	github.com/uber/jaeger-lib v2.2.0+incompatible // indirect
 	github.com/zmap/go-iptree v0.0.0-20170831022036-1948b1097e25 // indirect
